@@ -482,13 +482,22 @@ def files_task(ctx, task):
         # archives in which several members carry the same full name (zipfile / "zip -g" append without replacing): every
         # member is a part of the input. Quick: one naming scheme per spread, thorough: all of them
         dups = sorted(ZIPDUP_SCHEMES) if tier != 'quick' else [sorted(ZIPDUP_SCHEMES)[(sum(assign) // 3) % len(ZIPDUP_SCHEMES)]]
-        for route in ['dir', 'zip', 'files'] + ['zipdup:' + d for d in dups]:
+        # (round 8, C03-16) a second tree whose three files carry one and the same name in different directories
+        root2 = root + '-same'
+        shutil.rmtree(root2, ignore_errors=True)
+        for sub_, text in zip(('', 'sub', os.path.join('other', 'deep')), contents):
+            os.makedirs(os.path.join(root2, sub_), exist_ok=True)
+            with open(os.path.join(root2, sub_, 'm.xtuml'), 'w') as f:
+                f.write(text)
+        for route in ['dir', 'dirsame', 'zip', 'files'] + ['zipdup:' + d for d in dups]:
             ctx.count('loads')
             sigroute = route.split(':')[0]
             try:
                 l = LightBridgePointLoader.make()
                 if route == 'dir':
                     l.filename_input(root)
+                elif route == 'dirsame':
+                    l.filename_input(root2)
                 elif route == 'files':
                     for p in paths:
                         l.filename_input(p)
@@ -512,7 +521,8 @@ def files_task(ctx, task):
                               'route %s with statements spread %s raised %s: %s' % (route, assign, type(e).__name__, e))
                 continue
             if got != base:
-                where = 'a.xtuml, sub/b.xtuml, other/deep/c.xtuml' if sigroute != 'zipdup' else \
+                where = 'm.xtuml, sub/m.xtuml, other/deep/m.xtuml' if sigroute == 'dirsame' else \
+                    'a.xtuml, sub/b.xtuml, other/deep/c.xtuml' if sigroute != 'zipdup' else \
                     'the archive members %s' % (ZIPDUP_SCHEMES[route.split(':')[1]],)
                 ctx.violation('c03:files:%s' % sigroute, dict(case0, assign=list(assign), route=route),
                               'route %s with statements spread %s over %s differs from the '
@@ -521,6 +531,7 @@ def files_task(ctx, task):
             ctx.count('traces')
             ctx.distinct('nontrivial', ('files', si, repr(rows), assign, route))
     shutil.rmtree(root, ignore_errors=True)
+    shutil.rmtree(root + '-same', ignore_errors=True)
 
 
 # member names of archives holding equally named members, in member order
